@@ -20,6 +20,7 @@ def tasks(tier, seed):
 def extra(led, tier, seed):
     from contracts import predict_glue
     led.extend(predict_glue.obligations())
+    led.extend(predict_glue.infer_frame())
     from contracts import dtype_native
     led.extend(dtype_native.predict_dtypes(seed))
     # training-set predictions equal labels_: what fit stores is argmax of _infer on the training data in the caller's row order
